@@ -111,6 +111,10 @@ INT_RANGE = {"b": (-2**7, 2**7 - 1), "B": (0, 2**8 - 1), "h": (-2**15, 2**15 - 1
              "q": (-2**63, 2**63 - 1), "Q": (0, 2**64 - 1)}
 LEN_SIZE = {"B": 1, "H": 2, "I": 4, "L": 4, "Q": 8}
 NUL_SAFE_ENCODINGS = ("utf-8", "ascii", "latin-1")
+# width in bytes of one code unit: the model's NUL search is per unit (Model.cut)
+# ("utf-16"/"utf-32" write a byte-order mark on encode and strip it on decode, so text -> bytes is
+#  not the inverse of the decode the implementation did: they stay oracle-only)
+CODE_UNIT = {"utf-8": 1, "ascii": 1, "latin-1": 1, "utf-16-le": 2, "utf-16-be": 2, "utf-32-le": 4, "utf-32-be": 4}
 
 
 class Domain(Exception):
@@ -870,7 +874,7 @@ def coq_bfmt(fmt):
 def node_encoding(s):
     if isinstance(s, dict) and s.get("type") == "string":
         enc = s.get("stringEncoding", "utf-8")
-        if enc not in NUL_SAFE_ENCODINGS:
+        if enc not in CODE_UNIT:
             raise Untranslatable("stringEncoding %r" % enc)
         return enc
     return "utf-8"
@@ -935,7 +939,8 @@ def coq_schema(s):
             raise Untranslatable("leaf keywords")
         node_encoding(s)
         f = "None" if "binaryFormat" not in s else "(Some (%s))" % coq_bfmt(s["binaryFormat"])
-        return "(SLeaf %s %s %s)" % (JTY[t], f, "true" if s.get("nullTerminated", False) else "false")
+        unit = CODE_UNIT[node_encoding(s)] if s.get("nullTerminated", False) else 0
+        return "(SLeaf %s %s %d%%nat)" % (JTY[t], f, unit)
     raise Untranslatable("type %r" % (t,))
 
 
@@ -961,7 +966,7 @@ def coq_odec(s, dec):
     return "(OV %s)" % coq_value(s, untag(dec))
 
 
-CRES = {"ok": "CAccept", "MetadataSchemaValidationError": "CSchemaErr", "KeyError": "CKeyErr"}
+CRES = {"ok": "CAccept", "MetadataSchemaValidationError": "CSchemaErr", "KeyError": "CKeyErr", "AttributeError": "CAttrErr"}
 
 
 def coq_construct(schema, cons):
@@ -1077,7 +1082,11 @@ class StructFamily(Family):
         if obs.get("construct") != "ok":
             # schemas refused for exhaust-buffer misuse or "0p": the model's constructor must agree
             # (other refusals, e.g. a property called "type", are outside the model: finding F9e)
-            if oracle_construct_valid(case["schema"], obs.get("construct")) is REPAIRED:
+            # and property names colliding with keywords (F9e): modelled by construct as well
+            names = set()
+            for o in walk_objects(case["schema"]):
+                names |= set(o.get("properties", {}))
+            if oracle_construct_valid(case["schema"], obs.get("construct")) is REPAIRED or names & {"properties", "type"}:
                 return coq_construct(case["schema"], obs.get("construct"))
             return None
         return coq_rows(case["schema"], case["values"], obs["rows"])
@@ -1996,6 +2005,35 @@ class RowTransfer(Family):
             return [] if deep_eq(dec, want) else [("roundtrip", "reads back %r, expected %r" % (dec, want))]
         return oracle_row(dst, obj, {"enc": enc, "dec": dec} if dec is not None else {"enc": enc})
 
+    prelude = "From TskVerif Require Import Base.Common C12.Model.\nOpen Scope Z_scope."
+
+    def coq_check(self, case, obs):
+        """struct -> struct and JSON -> struct: Model.check_transfer / check_row on the object"""
+        if "ops" not in obs or case["mode"] not in ("s2s", "j2s"):
+            return None
+        try:
+            dst = coq_top(case["dst"])
+            src = coq_top(case["src"]) if case["mode"] == "s2s" else None
+        except Untranslatable:
+            return None
+        terms = []
+        for rec in obs["ops"]:
+            tv = case["values"][rec["i"]]
+            try:
+                oe = coq_oenc(rec["enc"])
+                od = coq_odec(case["dst"], rec["dec"]) if "dec" in rec else "OSkip"
+                if src is not None:
+                    terms.append("check_transfer c12_src c12_dst %s %s %s" % (coq_value(case["src"], untag(tv)), oe, od))
+                else:
+                    terms.append("check_row c12_dst %s %s %s" % (coq_value(case["dst"], untag(tv)), oe, od))
+            except (Untranslatable, TypeError, AttributeError, KeyError):
+                continue
+        terms = list(dict.fromkeys(terms))            # the nine operations mostly give the same term
+        if not terms:
+            return None
+        head = "let c12_dst := %s in " % dst + ("let c12_src := %s in " % src if src is not None else "")
+        return "(%s%s)" % (head, " && ".join(terms))
+
     def nontrivial(self, case, obs):
         return "ops" in obs
 
@@ -2191,7 +2229,7 @@ class NumpyView(Family):
             for k in KINDS:
                 try:
                     a = getattr(tsa, k + "_metadata")
-                    allobs[k] = {"names": list(a.dtype.names or []), "itemsize": int(a.dtype.itemsize),
+                    allobs[k] = {"names": list(a.dtype.names or []), "itemsize": int(a.dtype.itemsize), "flat": np_flat(a.dtype),
                                  "records": [list(a[i].tobytes()) for i in range(len(a))],
                                  "fields": [np_to_tagged(a[i]) for i in range(len(a))]}
                 except Exception as e:
@@ -2279,8 +2317,21 @@ class NumpyView(Family):
                 return None
             return "match np_dtype_top %s with %s => true | _ => false end" % (top, want)
         flat = "[" + "; ".join("(%d, %d, %d)" % (o, sz, k) for o, sz, k in obs["flat"]) + "]"
-        return ("match np_dtype_top %s with NOk d => (dt_itemsize d =? %d) && layout_eqb (dt_layout d 0) %s | _ => false end"
+        term = ("match np_dtype_top %s with NOk d => (dt_itemsize d =? %d) && layout_eqb (dt_layout d 0) %s | _ => false end"
                 % (top, obs["itemsize"], flat))
+        if "all_tables" in case and all("flat" in obs.get("all_tables", {}).get(k, {}) for k in KINDS):
+            # Model.table_view: the view of table k comes from the schema of table k
+            try:
+                tops = "[" + "; ".join(coq_top(case["all_tables"][k]["schema"]) for k in KINDS) + "]"
+            except Untranslatable:
+                return term
+            for j, k in enumerate(KINDS):
+                o = obs["all_tables"][k]
+                fl = "[" + "; ".join("(%d, %d, %d)" % tuple(x) for x in o["flat"]) + "]"
+                term += (" && match table_view c12_tops %d%%nat with NOk d => (dt_itemsize d =? %d) && layout_eqb (dt_layout d 0) %s"
+                         " | _ => false end" % (j, o["itemsize"], fl))
+            term = "(let c12_tops := %s in %s)" % (tops, term)
+        return term
 
     def nontrivial(self, case, obs):
         return "records" in obs
